@@ -117,6 +117,7 @@ func (e *Engine) resetPath(prefix []int64) {
 	e.tags, e.reached, e.choices, e.observes, e.failed = nil, nil, nil, nil, nil
 	e.instrs, e.depth = 0, 0
 	e.osLog = nil
+	e.schedTrace = nil
 	e.schedInit()
 }
 
